@@ -179,8 +179,75 @@ def check_sweep(ctx, n):
         ctx.notes.append("sweep accounting mismatch for n=%d" % n)
 
 
+LARGE_BOUNDS = [(1 << 31) + 1, 3 * (1 << 30), W - 1, (1 << 31) + (1 << 30) + 12345, (1 << 31) + 2]
+
+
+def sweep2(n, i1, i2, procs=16):
+    """all 2^32 raw words through the real draw for a bound too large for one counter per alternative; tallies two alternatives"""
+    step = W // procs
+    jobs = ["t%d sweep2 %d %d %d %d %d" % (p, n, p * step, (W if p == procs - 1 else (p + 1) * step), i1, i2) for p in range(procs)]
+
+    def run(job):
+        r, note = core.run_impl([job], timeout=3600)
+        return list(r.values())[0] if r else None
+    with ThreadPoolExecutor(max_workers=procs) as ex:
+        outs = list(ex.map(run, jobs))
+    tot = {"c1": 0, "c2": 0, "rejected": 0, "oor": 0}
+    for o in outs:
+        if o is None or not o.startswith("ok "):
+            return None
+        for tok in o.split(" ")[1:]:
+            if "=" in tok and tok.split("=")[0] in tot:
+                tot[tok.split("=")[0]] += int(tok.split("=")[1])
+    return tot
+
+
+def check_large(ctx, n):
+    """bounds above 2^31: look for two raw words that select the same alternative in a boundary-heavy sample of the real draw,
+    then count ALL raw words selecting that alternative and a control alternative"""
+    rng = ctx.rng
+    probe = [0, 1, n - 1, n, n + 1, W - 1, W - 2, W - n, W - n - 1, (W - 1) - ((W - 1) % n)] + [rng.randrange(W) for _ in range(3000)]
+    probe += [(v + n) % W for v in probe[:1500]] + [(v - n) % W for v in probe[:1500]]
+    probe = sorted(set(v for v in probe if 0 <= v < W))
+    lines = ["p%d draw %d %s" % (k, n, core.src_tokens(core.flat_tape([v, 0, 0, 0]))) for k, v in enumerate(probe)]
+    res, _ = core.run_impl(lines)
+    seen = {}
+    cand = None
+    for k, v in enumerate(probe):
+        a = res.get("p%d" % k)
+        if not a or not a.startswith("ok "):
+            continue
+        f = a.split(" ")
+        idx = int(f[1])
+        consumed = int([x for x in f if x.startswith("consumed=")][0][9:])
+        if consumed != 4:
+            continue        # the word was rejected; the index comes from the filler
+        if idx in seen and seen[idx] != v:
+            cand = (idx, seen[idx], v)
+            break
+        seen[idx] = v
+    ctx.evaluations += len(probe)
+    if cand is None:
+        return
+    i1 = cand[0]
+    i2 = n - 1 if i1 != n - 1 else n - 2
+    t = sweep2(n, i1, i2)
+    ctx.evaluations += W
+    ctx.count("full_2^32_sweeps")
+    if t is None:
+        return
+    ctx.nontrivial.add(("sweep2", n))
+    if t["c1"] != t["c2"]:
+        ctx.violations.append({"finding_key": "C01-bias", "what": "alternatives selected by different numbers of the 2^32 raw words",
+                               "n": n, "index_a": i1, "count_a": t["c1"], "index_b": i2, "count_b": t["c2"],
+                               "witness_words": [cand[1], cand[2]], "replay_family": "sweep2"})
+    if t["oor"]:
+        ctx.violations.append({"finding_key": "C01-range", "what": "draw returned an index >= n", "n": n, "count": t["oor"]})
+
+
 def oracle(ctx, deep):
-    ctx.searched = "full 2^32 raw-word sweep of the real bounded draw for bounds %s; structural checks on every correspondence case" % SWEEP_BOUNDS
+    ctx.searched = ("full 2^32 raw-word sweep of the real bounded draw for bounds %s; for bounds above 2^31 (%s) a boundary-heavy probe for two raw "
+                    "words selecting one alternative followed by a full count of that alternative; structural checks on every correspondence case" % (SWEEP_BOUNDS, LARGE_BOUNDS))
     # cheap structural checks on every run: range; a rejected word is followed by a fresh decision
     for meta, a, b in getattr(ctx, "draw_results", []):
         if a is None or not a.startswith("ok "):
@@ -197,10 +264,19 @@ def oracle(ctx, deep):
         check_sweep(ctx, n)
         if ctx.violations and not ctx.tier == "thorough":
             break
+    if deep and not ctx.violations:
+        for n in LARGE_BOUNDS:
+            check_large(ctx, n)
+            if ctx.violations:
+                break
 
 
 def replay(v):
     n = v["n"]
+    if v.get("replay_family") == "sweep2":
+        t = sweep2(n, v["index_a"], v["index_b"])
+        print("bound n=%d: alternative %d selected by %d raw words, alternative %d by %d" % (n, v["index_a"], t["c1"], v["index_b"], t["c2"]))
+        return 1 if t["c1"] != t["c2"] else 0
     if v.get("replay_family") == "sweep" or "count_a" in v:
         r = sweep(n)
         counts, rejected, oor = r
